@@ -2965,11 +2965,19 @@ ythread_create(ABTI_global *p_global, ABTI_local *p_local, ABTI_pool *p_pool,
                                      ? ABTI_local_get_xstream(p_local)->p_thread
                                      : NULL,
                                  p_pool);
+        /* Return value.  This must be set before p_newthread is pushed: once it
+         * is in the pool, another execution stream can run it to completion and
+         * free it.  If pp_newthread points into an automatic scheduler (see
+         * ABTI_ythread_create_sched()), that scheduler has been freed by then,
+         * and a late store would resurrect p_sched->p_ythread for the key
+         * destructor that is freeing it. */
+        *pp_newthread = p_newthread;
         if (pool_op == THREAD_POOL_OP_PUSH) {
             /* Add this thread to the pool */
             ABTI_pool_push(p_pool, p_newthread->thread.unit,
                            ABT_POOL_CONTEXT_OP_THREAD_CREATE);
         }
+        return ABT_SUCCESS;
     } else {
         /* pool_op == THREAD_POOL_OP_NONE */
         p_newthread->thread.p_pool = p_pool;
